@@ -8,7 +8,7 @@ import glob, gzip, json, os, shutil, subprocess, sys
 HERE = os.path.dirname(os.path.abspath(__file__))
 props = sys.argv[1:] or ["C%02d" % i for i in range(1, 21)]
 os.makedirs(os.path.join(HERE, "reach"), exist_ok=True)
-union = {}
+union = {}; bunion = {}
 for p in props:
     for d in glob.glob(os.path.join(HERE, ".build", p + ".quick.*")):
         shutil.rmtree(d, ignore_errors=True)
@@ -16,13 +16,13 @@ for p in props:
                        stdout=subprocess.PIPE, stderr=subprocess.STDOUT, text=True)
     last = r.stdout.strip().splitlines()[-1] if r.stdout.strip() else ""
     bd = sorted(glob.glob(os.path.join(HERE, ".build", p + ".quick.*")))
-    res = {}
+    res = {}; bres = {}
     for b in bd:
         for cdir in glob.glob(os.path.join(b, "gcov*")):
             gcdas = glob.glob(os.path.join(cdir, "lib_*.gcda"))
             if not gcdas:
                 continue
-            g = subprocess.run(["gcov", "--json-format", "--stdout"] + gcdas, cwd=cdir, stdout=subprocess.PIPE, stderr=subprocess.DEVNULL)
+            g = subprocess.run(["gcov", "-b", "--json-format", "--stdout"] + gcdas, cwd=cdir, stdout=subprocess.PIPE, stderr=subprocess.DEVNULL)
             for doc in g.stdout.decode(errors="replace").splitlines():
                 try:
                     j = json.loads(doc)
@@ -33,13 +33,25 @@ for p in props:
                     if not name.endswith(".c") or "/vf/" in f["file"]:
                         continue
                     cov = res.setdefault(name, {})
+                    bcov = bres.setdefault(name, {})
                     for ln in f["lines"]:
                         cov[ln["line_number"]] = cov.get(ln["line_number"], 0) + ln["count"]
+                        for bi, br in enumerate(ln.get("branches", [])):
+                            if br.get("throw"):
+                                continue
+                            k = "%d.%d" % (ln["line_number"], bi)
+                            bcov[k] = bcov.get(k, 0) + br["count"]
         shutil.rmtree(b, ignore_errors=True)
     out = {}
     for name, cov in sorted(res.items()):
         tot = len(cov); hit = sum(1 for v in cov.values() if v)
-        out[name] = {"lines": tot, "covered": hit, "uncovered": sorted(k for k, v in cov.items() if not v)}
+        bc = bres.get(name, {})
+        out[name] = {"lines": tot, "covered": hit, "uncovered": sorted(k for k, v in cov.items() if not v),
+                     "branches": len(bc), "branches_taken": sum(1 for v in bc.values() if v),
+                     "branches_never": sorted((k for k, v in bc.items() if not v), key=lambda x: [int(t) for t in x.split(".")])}
+        ub = bunion.setdefault(name, {})
+        for k, v in bc.items():
+            ub[k] = ub.get(k, 0) + v
         u = union.setdefault(name, {})
         for k, v in cov.items():
             u[k] = u.get(k, 0) + v
@@ -48,6 +60,9 @@ for p in props:
     print("%s: %d/%d library lines reached (%.1f%%)  [%s]" % (p, tc, tl, 100.0 * tc / max(tl, 1), last[:90]), flush=True)
 allout = {}
 for name, cov in sorted(union.items()):
-    allout[name] = {"lines": len(cov), "covered": sum(1 for v in cov.values() if v), "uncovered": sorted(k for k, v in cov.items() if not v)}
-    print("  %-18s %5d/%5d" % (name, allout[name]["covered"], allout[name]["lines"]))
+    bc = bunion.get(name, {})
+    allout[name] = {"lines": len(cov), "covered": sum(1 for v in cov.values() if v), "uncovered": sorted(k for k, v in cov.items() if not v),
+                    "branches": len(bc), "branches_taken": sum(1 for v in bc.values() if v),
+                    "branches_never": sorted((k for k, v in bc.items() if not v), key=lambda x: [int(t) for t in x.split(".")])}
+    print("  %-18s lines %5d/%5d   branch outcomes %5d/%5d" % (name, allout[name]["covered"], allout[name]["lines"], allout[name]["branches_taken"], allout[name]["branches"]))
 json.dump(allout, open(os.path.join(HERE, "reach", "ALL.json"), "w"), indent=1)
